@@ -148,6 +148,12 @@ func hasEdges(w *model.World) bool {
 	return false
 }
 
+// rec is a recursive target type: every member of the object o fits again.
+type rec struct {
+	X *rec `config:"x"`
+	Y *rec `config:"y"`
+}
+
 type budgetExceeded struct{}
 
 const budget = 20000
@@ -306,6 +312,11 @@ func runWorld(res *harness.R, w *model.World, r *rand.Rand, verbose, sample bool
 			var m map[string]interface{}
 			return nil, c.Unpack(&m, b.Opts...)
 		})
+		// object-valued settings into a struct target of a RECURSIVE Go type:
+		// a reference back to an ancestor must be reported, not followed forever
+		if !strings.Contains(k, ".") && (deepRes.Container || deepRes.IsErr) && s.Ex.IsSingleRef() {
+			add("Unpack(recursive struct)", func() (interface{}, error) { return vx.ReadField(b.C, k, reflect.TypeOf(&rec{}), b.Opts) })
+		}
 		for _, rd := range reads {
 			res.SetAdd("entry_point", rd.how)
 			if verbose {
@@ -319,6 +330,10 @@ func runWorld(res *harness.R, w *model.World, r *rand.Rand, verbose, sample bool
 					continue // reads the whole object o: class of the member alone does not decide it
 				}
 				judgeGeneric(res, rd.how, k, rd.val, rd.err, deepRes, deepClass, canCompare(deepClass), desc, s)
+			case "Unpack(recursive struct)":
+				if deepClass == "B-unabsorbed-cycle" && rd.err == nil {
+					res.Violate("cycle-not-reported", "Unpack(%q) into a recursive struct type succeeded, model: unabsorbed cyclic reference; %s", k, desc)
+				}
 			case "CountField":
 				if shClass == "A-no-reentry" && !shRes.IsErr && rd.err != nil {
 					res.Violate("acyclic-read-fails", "CountField(%q) failed with %v, model: resolves (class %s); %s", k, rd.err, shClass, desc)
